@@ -86,8 +86,9 @@ class LT(object):
 
 
 class Sched(object):
-    def __init__(self, policy, gran):
+    def __init__(self, policy, gran, step_limit=STEP_LIMIT):
         self.policy, self.gran = policy, gran
+        self.step_limit = step_limit
         self.threads = []
         self.main = LT(0, 'main')
         self.main.state = 'run'
@@ -199,7 +200,7 @@ class Sched(object):
             raise Abort()
         me = self.cur
         me.yields += 1
-        if self.nyield > STEP_LIMIT:
+        if self.nyield > self.step_limit:
             self.abort('step-limit')
             raise Abort()
         nxt = self._pick(me, kind)
@@ -658,7 +659,9 @@ def identify(case, log, enq_order):
     for rec, kind, args, ok, role in log:
         cands = pool.get((rec, kind, ident(kind, args)))
         if cands:
-            pick = next((c for c in cands if min(outstanding[c[0]]) == c[1]), cands[0])
+            # (a single candidate is picked either way: keeps long histories linear)
+            pick = cands[0] if len(cands) == 1 else \
+                next((c for c in cands if min(outstanding[c[0]]) == c[1]), cands[0])
             cands.remove(pick)
             outstanding[pick[0]].discard(pick[1])
             applied.append([pick[0], pick[1], bool(ok)])
@@ -672,7 +675,8 @@ def identify(case, log, enq_order):
 # --------------------------------------------------------------------------------------------------
 def run_once(case, policy, gran):
     global S, SPY_CTX
-    sched = Sched(policy, gran)
+    # (the step limit grows with the history: a long workload is not a run that fails to terminate)
+    sched = Sched(policy, gran, STEP_LIMIT + 16 * sum(len(ops) for ops in case['work']))
     ctx = SpyCtx(fail_table(case))
     saved_attrs = (amod.Thread, amod.Lock, amod.Event)
     amod.Thread, amod.Lock, amod.Event = SThread, SLock, SEvent
@@ -867,7 +871,7 @@ def lock_gate():
 # --------------------------------------------------------------------------------------------------
 # real threads (thorough): free-running, direct predicate only
 # --------------------------------------------------------------------------------------------------
-def real_once(case, delay, switch):
+def real_once(case, delay, switch, interval=0.002, burst=False):
     global S, SPY_CTX
     S = None
     ctx = SpyCtx(fail_table(case), delay=delay)
@@ -882,7 +886,7 @@ def real_once(case, delay, switch):
     tick = itertools.count()
     slow = []
     try:
-        cas = amod.AsyncRecordOnlyTapeCassette(spy, flush_interval=0.002, timeout_on_close=30)
+        cas = amod.AsyncRecordOnlyTapeCassette(spy, flush_interval=interval, timeout_on_close=30)
         cas.start()
         recs = [cas.create_new_recording('cat') for _ in range(case['nrec'])]
         go = threading.Event()
@@ -907,7 +911,9 @@ def real_once(case, delay, switch):
                     if delay >= 0.02 and dt > 0.6 * delay:      # (short delays: scheduling noise is of the same size)
                         slow.append([p, i, round(dt / delay, 2)])
                     # spread the requests over several flush cycles so that they overlap storage calls
-                    time.sleep(0.0005 * (1 + (p + i) % 3) + (delay / 3.0 if delay else 0.0))
+                    # (burst: back to back, the whole history is pending when close() is called)
+                    if not burst:
+                        time.sleep(0.0005 * (1 + (p + i) % 3) + (delay / 3.0 if delay else 0.0))
             return run
         ths = [threading.Thread(target=body(p, ops)) for p, ops in enumerate(case['work'])]
         for t in ths:
@@ -965,7 +971,7 @@ def run_c12(case):
     if kind == 'threads':
         runs = []
         for j in range(sc['runs']):
-            runs.append(real_once(case, sc['delay'], sc['switch']))
+            runs.append(real_once(case, sc['delay'], sc['switch'], sc.get('interval', 0.002), bool(sc.get('burst'))))
         return dict(real=runs, nruns=len(runs))
     raise ValueError(kind)
 
